@@ -324,6 +324,47 @@ def check(run):
             if ha == hb:
                 run.fail('collision:array-subclass', 'f(%s) with the argument %s: %r and %r are different values (type %s vs %s) but the two invocations share the identifier %s'
                          % (wrapname, label, a_, b_, type(a_).__name__, type(b_).__name__, ha[:16]), {'kind': 'subclass-pair', 'label': label, 'wrap': wrapname})
+    # a value changed in place between two invocations (same object, other content): different invocations. Large arrays (above any size at which a digest might be
+    # remembered per object), small arrays, lists, dicts, bytearrays
+    def _mut_cases():
+        big = _np.zeros(300000)
+        small = _np.arange(10)
+        lst = [1, 2, [3, 4]]
+        dct = {'a': [1], 'b': 2}
+        ba = bytearray(b'abcdef')
+        nested = {'k': [_np.zeros(200000), 1]}
+        return [('ndarray of 2.4 MB', big, lambda: big.__setitem__(12345, 1.0)), ('small ndarray', small, lambda: small.__setitem__(3, 99)),
+                ('list', lst, lambda: lst[2].append(5)), ('dict', dct, lambda: dct['a'].append(2)), ('bytearray', ba, lambda: ba.__setitem__(0, 120)),
+                ('array inside containers', nested, lambda: nested['k'][0].__setitem__(7, 3.0))]
+    for label, obj, mutate in _mut_cases():
+        run.case(('mutate-between', label), nontrivial=True)
+        run.count('in_place_mutation_cases')
+        try:
+            h1 = _Task(_hm.f, obj, key=[obj]).hash()
+            _h1(obj)
+            mutate()
+            h2 = _Task(_hm.f, obj, key=[obj]).hash()
+            import copy as _copy
+            h3 = _Task(_hm.f, _copy.deepcopy(obj), key=[_copy.deepcopy(obj)]).hash()
+        except Exception as e:
+            run.fail('hash-raises', 'hashing a task over a %s raised %s: %s' % (label, type(e).__name__, e), {'kind': 'mutate-between', 'label': label})
+            continue
+        if h1 == h2:
+            run.fail('collision:mutated-argument', 'f(x) was created (and its identifier computed) for a %s x; then x was changed in place and f(x) created again: the two invocations have different '
+                     'arguments but share the identifier %s' % (label, h1[:16]), {'kind': 'mutate-between', 'label': label})
+        elif h2 != h3:
+            run.fail('identifier-depends-on-history', 'f(x) for a %s x that was changed in place after an earlier hashing has the identifier %s; an equal fresh copy gives %s' % (label, h2[:16], h3[:16]),
+                     {'kind': 'mutate-between', 'label': label})
+    # keyword arguments against trailing positional (name, value) tuples, and against a trailing dict
+    kw_pairs = [((1,), {'k': 2}, (1, ('k', 2)), {}), ((1,), {'k': 2}, (1, [('k', 2)]), {}), ((1,), {'k': 2}, (1, {'k': 2}), {}), ((), {'a': 1, 'b': 2}, (('a', 1), ('b', 2)), {}),
+                ((1,), {'k': [2, 3]}, (1, ('k', [2, 3])), {}), ((), {'args': (1, 2)}, (1, 2), {}), ((('kwargs', 3),), {}, (), {'kwargs': 3})]
+    for a1, k1, a2, k2 in kw_pairs:
+        run.case(('kw-vs-tuple', repr((a1, k1, a2, k2))), nontrivial=True)
+        run.count('keyword_vs_positional_pairs')
+        ha, hb = _Task(_hm.f, *a1, **k1).hash(), _Task(_hm.f, *a2, **k2).hash()
+        if ha == hb:
+            run.fail('collision:keyword-vs-positional', 'f(*%r, **%r) and f(*%r, **%r) are different invocations but share the identifier %s' % (a1, k1, a2, k2, ha[:16]),
+                     {'kind': 'kw-vs-tuple', 'pair': repr((a1, k1, a2, k2))})
     import jug.task as _jt
     del _jt.alltasks[:]
     # functions of the same name in different modules are different functions (plain tasks, tasklets, and every way map/mapreduce/
